@@ -163,9 +163,8 @@ theorem rle_length (c : Bytes) (size : Nat) (skip : Bool) (out : Bytes) (h : rle
   unfold rleDecompress at h
   split at h
   · simp at h
-  · simp only [Option.some.injEq] at h
-    subst h
-    simp
+  · simp only at h
+    split at h <;> simp at h <;> (obtain ⟨_, rfl⟩ := h; simp)
 
 theorem addBytes_length (seg base : Bytes) : (addBytes seg base).length = seg.length := by
   unfold addBytes
@@ -222,6 +221,8 @@ theorem applyBsd0_size (p : Patch) (base out : Bytes) (h : applyBsd0 p base = so
   split at h
   · simp at h
   rename_i hns
+  split at h
+  · simp at h
   split at h
   · simp at h
   split at h
